@@ -66,6 +66,15 @@ CHECKS = {
          "Trusted: Bob's public graph API (getScript/getEnv/getTools/getArguments) as description of what a step runs with - the "
          "digest code itself is not used. The listed known finding (Finalize order) and everything downstream of it is excluded and counted.",
          "3 (C02)", "E2 projgen, E5 pkgdump"),
+ "C18": ("exploration",
+         "Hypothesis graph + query-grammar generation; reference forward evaluator written from bobpaths(7) (model-based differential), DP validity predicate for reported paths, empty-mode oracle",
+         "Generated recipe DAGs with shared and provided nodes and generated path queries (all axes, wildcards, nested predicates, "
+         "string functions, three empty-result modes) are evaluated by Bob and by a reference evaluator; result sets must be equal, "
+         "reported paths must be real and follow the steps, empty results handled per mode, malformed queries rejected with BobError. "
+         "~40000 queries per quick run.",
+         "Trusted: the reference evaluator in checks/c18_paths.py and the package graph obtained through getDirectDepSteps/"
+         "getIndirectDepSteps. Aliases are not generated yet. One known finding (reported path may bypass steps) is excluded and counted.",
+         "3 (C18)", "E5 pkgdump, E8 strlang"),
 }
 
 NOT_YET = {}
